@@ -89,8 +89,8 @@ def run(ctx):
         for B in classes:
             unrel = not issubclass(B, R.version_class) and not issubclass(R.version_class, B)
             g = core.run_driver(ctx, [f"guard {R.__name__} {B.__name__}"])[0].split()
-            for comp in (">=", "=", "!=", "<"):
-                con = vc.VersionConstraint(comparator=comp, version=own[0])
+            for comp in (">=", "=", "!=", "<", "<=", ">", "*"):
+                con = vc.VersionConstraint(comparator=comp, version=own[0]) if comp != "*" else vc.VersionConstraint(comparator="*", version_class=R.version_class)
                 rngs = [R(constraints=[con]), R(constraints=[vc.VersionConstraint(comparator=">=", version=own[0])] +
                                                 ([vc.VersionConstraint(comparator="!=", version=own[1])] if len(own) > 1 and own[1] != own[0] else []))]
                 for b in pools[B][:nvals]:
